@@ -24,7 +24,9 @@ def plan(tier, seed):
     quick = tier == "quick"
     d = 6 if quick else 7
     cfgs = [dict(depth=d, nproc=2), dict(depth=d - 1, nproc=3), dict(depth=d - 1, nproc=2, falsy=1), dict(kind="cond"), dict(kind="gc"),
-            dict(depth=d, nproc=2, ops=2), dict(depth=d - 1, nproc=2, duck=1)]
+            dict(depth=d, nproc=2, ops=2), dict(depth=d - 1, nproc=2, duck=1),
+            # timeouts that carry no callback of ours: a timer whose only waiter was interrupted away has no callbacks left
+            dict(depth=d - 1, nproc=2, noprobe_to=1)]
     return {"cfgs": cfgs, "budget": None, "bound": "D<=%d with 2 initial processes, D<=%d with 3; <=4 processes (reactions count as instructions)" % (d, d - 1)}
 
 
@@ -105,7 +107,7 @@ def execute(ch, cfg):
         return exec_cond(ch, cfg)
     if cfg.get("kind") == "gc":
         return exec_gc(ch, cfg)
-    k = KC.K(ch, OPS2 if cfg.get("ops") == 2 else OPS, cfg["depth"], nproc=cfg["nproc"], reaction=True, falsy_causes=bool(cfg.get("falsy")), duck=bool(cfg.get("duck"))).run()
+    k = KC.K(ch, OPS2 if cfg.get("ops") == 2 else OPS, cfg["depth"], nproc=cfg["nproc"], reaction=True, falsy_causes=bool(cfg.get("falsy")), duck=bool(cfg.get("duck")), probe_timeouts=not cfg.get("noprobe_to")).run()
     res = Result()
     res.digest = k.digest()
     viol, nt = KC.check_interrupts(k)
